@@ -12,3 +12,4 @@ import TeosVerif.Props.C04
 #print axioms Teos.C04.rebroadcast_outcome
 #print axioms Teos.C04.dropped_without_refund
 #print axioms Teos.C04.completed_is_forgotten
+#print axioms Teos.C04.refund_is_one_write
